@@ -93,7 +93,12 @@ def _b1(ctx: Context) -> None:
     cfg = ctx.cfg(f.qualname)
     bufs = _wire_buffers(ctx, cfg) - {"result"}
     if not bufs:
-        ck.unknown("C15.B1", "decode_bytearray: no popped wire buffer found", f.loc())
+        cur = _cursor_form(ctx)
+        if cur.ok:
+            _cursor_b1(ctx, cur)
+            _b1_rest(ctx, f, cfg)
+            return
+        ck.unknown("C15.B1", f"decode_bytearray: no popped wire buffer found, and not the cursor form ({cur.why})", f.loc())
         return
     bl = BufLen(ctx, cfg, bufs)
     n = 0
@@ -109,6 +114,11 @@ def _b1(ctx: Context) -> None:
             ctx.loc(f, s.node),
         )
     ck.require_min("C15.B1", "pop/index sites on the wire buffer", n, 2)
+    _b1_rest(ctx, f, cfg)
+
+
+def _b1_rest(ctx: Context, f, cfg) -> None:
+    ck = ctx.ck
     # to_string is evaluated eagerly for the debug log of both codec directions
     ts = ctx.func(f"{TLVC}.to_string")
     called = any(c for n_, c in ctx.nodes_calling_name(cfg, "to_string"))
@@ -162,6 +172,231 @@ def _decoder_parts(ctx: Context):
                 idx = ctx.const(f, c.args[0], None) if c.args else None
                 pops.append((n, a.targets[0].id, c.func.value.id, idx))
     return f, cfg, pops
+
+
+# ---------------------------------------------------------------------- the decoder written over an integer cursor
+class _Cursor:
+    """decode_bytearray as a walk over an unchanged buffer D with an integer cursor P (`key = D[P]; P += 1; ...`).
+
+    Everything is stated over single-assignment values (engine/avail.py `ssa`): with P0 the cursor at the loop head, a read is
+    D[P0 + k], the cursor after some steps is P0 + k (+ D[P0 + 1]), `end = len(D)`, `remaining = end - P` are what they
+    compute.  How the cursor is stepped (`+= 1` twice, `+= 2`, `P = P + 1 + D[P]` ...) does not matter."""
+
+    def __init__(self, ctx: Context):
+        from ..engine import avail as AV
+
+        self.AV = AV
+        self.ctx = ctx
+        self.f = ctx.func(f"{TLVC}.decode_bytearray")
+        self.cfg = cfg = ctx.cfg(self.f.qualname)
+        self.A = A = AV.Avail(ctx, cfg)
+        self.ok = False
+        self.why = ""
+        live = cfg.reachable_from(cfg.entry.id) | {cfg.entry.id}
+        self.live = live
+        heads = [n for n in cfg.nodes if n.kind == "loop_head" and n.id in live and sum(1 for fr in n.frames if fr[0] == "loop") == 0]
+        if len(heads) != 1:
+            self.why = f"expected one item loop, found {len(heads)}"
+            return
+        self.head = heads[0]
+        # indexed reads X[i] of a local that is never changed in place, i = <merge value of a local P> + constant
+        cand: dict = {}
+        self.reads = []
+        for n in cfg.nodes:
+            if n.id not in live:
+                continue
+            roots = [n.ast] if n.kind == "stmt" and n.ast is not None else [e for e in n.exprs if e is not None]
+            for r in roots:
+                for x in walk_expr(r):
+                    if isinstance(x, ast.Subscript) and isinstance(x.ctx, ast.Load) and isinstance(x.value, ast.Name) and not isinstance(x.slice, ast.Slice) \
+                            and x.value.id in A.du.local_names and not A.mutated_in_place(x.value.id):
+                        v = A.ssa(n, x.slice)
+                        phis = [a for a, k in v[1] if a[0] == "phi"]
+                        if len(v[1]) == 1 and len(phis) == 1 and v[1][0][1] == 1:
+                            cand.setdefault((x.value.id, phis[0]), []).append((n, x, v[2]))
+        if len(cand) != 1:
+            self.why = f"no single (buffer, cursor) pair found ({sorted((k[0], k[1][1]) for k in cand)})"
+            return
+        (self.D, self.P0a), self.reads = next(iter(cand.items()))
+        self.P = self.P0a[1]
+        self.P0 = AV.atom(self.P0a)
+        if A.ssa_var(self.head, self.P) != self.P0:
+            self.why = "the cursor read from is not the one merged at the loop head"
+            return
+        self.Dv = A.ssa_var(self.reads[0][0], self.D)
+        if any(A.ssa_var(n, self.D) != self.Dv for n, _x, _k in self.reads) or AV.has_opaque(self.Dv):
+            self.why = "the buffer read from is rebound between reads"
+            return
+        self.LEN = AV.atom(("len", self.Dv))
+        self.L = AV.atom(("read", self.Dv, AV.add(self.P0, AV.const(1))))  # the length byte of the item at the cursor
+        self.ITEM_END = AV.add(AV.add(self.P0, AV.const(2)), self.L)
+        self.REM = AV.add(self.LEN, self.P0, -1)  # bytes from the cursor (at the head) to the end
+        self.ok = True
+
+    # -- a comparison `l op r` at a test node as  <affine> op 0
+    def test_diff(self, n):
+        cp = compare_parts(n.exprs[0])
+        if cp is None:
+            # truthiness of an integer expression (`while remaining:`): value != 0
+            v = self.A.ssa(n, n.exprs[0])
+            return (v, "NotEq") if not self.AV.has_opaque(v) and v[0] == "lin" else None
+        l, op, r = cp
+        if op not in ("Lt", "LtE", "Gt", "GtE", "Eq", "NotEq"):
+            return None
+        d = self.AV.add(self.A.ssa(n, l), self.A.ssa(n, r), -1)
+        return (d, op)
+
+    @staticmethod
+    def _outcome(op: str, truth: bool) -> str:
+        NEG = {"Lt": "GtE", "LtE": "Gt", "Gt": "LtE", "GtE": "Lt", "Eq": "NotEq", "NotEq": "Eq"}
+        return op if truth else NEG[op]
+
+    def lower_bound(self, diff, op: str, G):
+        """diff op 0 holds, diff = s*G + c with s = +-1: the lower bound it gives for the integer G (None: none).
+        `!=` gives none by itself (see rem_bounds, which combines it with what is known)."""
+        AV = self.AV
+        for s_ in (1, -1):
+            rest = AV.add(diff, AV.scale(G, s_), -1)
+            c = AV.as_const(rest)
+            if c is None:
+                continue
+            # s*G + c op 0
+            if s_ == 1:
+                return {"Gt": -c + 1, "GtE": -c, "Eq": -c}.get(op)
+            return {"Lt": c + 1, "LtE": c, "Eq": c}.get(op)
+        return None
+
+    def rem_bounds(self) -> dict:
+        """Forward data flow over one iteration: at each node, a lower bound of REM = len(D) - P0 (bytes available from the
+        item's first byte) established by the tests passed since the loop head."""
+        AV, cfg = self.AV, self.cfg
+        IN: dict[int, int] = {self.head.id: 0}
+        work = [self.head.id]
+        it = 0
+        while work and it < 20000:
+            it += 1
+            u = work.pop()
+            cur = IN[u]
+            n = cfg.nodes[u]
+            td = self.test_diff(n) if n.kind == "test" else None
+            for d, lab, _exc in n.succ:
+                if d == self.head.id:
+                    continue
+                out = cur
+                if td is not None and lab in ("T", "F"):
+                    op = self._outcome(td[1], lab == "T")
+                    lb = self.lower_bound(td[0], op, self.REM)
+                    if lb is not None:
+                        out = max(out, lb)
+                    elif op == "NotEq":
+                        # REM != k together with REM >= k is REM >= k + 1
+                        k = self.lower_bound(td[0], "Eq", self.REM)
+                        if k is not None and cur >= k:
+                            out = max(out, k + 1)
+                if d not in IN or out < IN[d]:
+                    IN[d] = out if d not in IN else min(IN[d], out)
+                    work.append(d)
+        return IN
+
+
+def _cursor_form(ctx: Context):
+    c = getattr(ctx, "_c15_cursor", None)
+    if c is None:
+        c = _Cursor(ctx)
+        ctx._c15_cursor = c
+    return c
+
+
+def _cursor_b1(ctx: Context, c: _Cursor) -> None:
+    """Totality for the cursor form: every indexed read D[P0 + k] is reached only with len(D) - P0 >= k + 1 established."""
+    ck, f, cfg, AV = ctx.ck, c.f, c.cfg, c.AV
+    lb = c.rem_bounds()
+    n_sites = 0
+    for n, x, k in c.reads:
+        n_sites += 1
+        have = lb.get(n.id, 0)
+        ck.check("C15.B1", have >= k + 1, f"decode_bytearray: `{_u(x)}` covered (bytes available >= {have}, needs {k + 1})",
+                 f"{ctx.fkey(f)}:uncovered:{norm_stmt(n.text())}",
+                 f"decode_bytearray: `{_u(x)}` in `{n.text()}` can raise IndexError: only {have} byte(s) from the item's first byte are known to be there "
+                 f"(a truncated TLV, e.g. a lone type byte, reaches it)", ctx.loc(f, n))
+    ck.require_min("C15.B1", "indexed reads of the wire buffer", n_sites, 2)
+
+
+def _cursor_g1_t1(ctx: Context, c: _Cursor, rule: str) -> None:
+    ck, f, cfg, AV, A = ctx.ck, c.f, c.cfg, c.AV, c.A
+    fk = ctx.fkey(f)
+    # the stores of a decoded item: result.append([key, value]) / <previous>[1] += value
+    stores = []
+    for n in cfg.nodes:
+        a = n.ast
+        if n.kind != "stmt" or n.id not in c.live:
+            continue
+        if isinstance(a, ast.AugAssign) and isinstance(a.target, ast.Subscript):
+            stores.append((n, None, a.value))
+        for cl in ctx.calls(n):
+            if isinstance(cl.func, ast.Attribute) and cl.func.attr == "append" and len(cl.args) == 1 and isinstance(cl.args[0], (ast.List, ast.Tuple)) and len(cl.args[0].elts) == 2:
+                stores.append((n, cl.args[0].elts[0], cl.args[0].elts[1]))
+    stores = [s_ for s_ in stores if "logger" not in _u(s_[0].ast)]
+    if not stores:
+        ck.unknown(rule, "decode_bytearray (cursor form): no store of a decoded item found", f.loc())
+        return
+    want_val = AV.atom(("slice", c.Dv, AV.add(c.P0, AV.const(2)), c.ITEM_END))
+    want_key = AV.atom(("read", c.Dv, c.P0))
+    if rule == "C15.T1":
+        for n, ke, ve in stores:
+            v = A.ssa(n, ve)
+            good = v == want_val
+            if good or not AV.has_opaque(v):
+                ck.check(rule, good, "the value stored is buffer[P + 2 : P + 2 + length byte] (type at P, length at P + 1)", f"{fk}:value-slice",
+                         f"decode_bytearray stores {AV.show(v)} as the value of the item at P = {AV.show(c.P0)}: it must be buffer[P + 2 : P + 2 + buffer[P + 1]]", ctx.loc(f, n))
+            else:
+                ck.unknown(rule, f"decode_bytearray (cursor form): the stored value {AV.show(v)} is not read by the analysis", ctx.loc(f, n))
+            if ke is not None:
+                kv = A.ssa(n, ke)
+                ck.check(rule, kv == want_key, "the type stored is buffer[P]", f"{fk}:pops",
+                         f"decode_bytearray stores {AV.show(kv)} as the type of the item at P = {AV.show(c.P0)}", ctx.loc(f, n))
+        # every way back to the loop head leaves the cursor at the end of the item: P0 + 2 + length byte
+        n_back = 0
+        for src, lab, _exc in c.head.pred:
+            if src not in c.live or src not in cfg.reachable_from(c.head.id):
+                continue
+            n_back += 1
+            sn = cfg.nodes[src]
+            v = A.ssa_after(sn, c.P)
+            good = v == c.ITEM_END
+            if good or not AV.has_opaque(v):
+                ck.check(rule, good, "at the end of an iteration the cursor stands behind the item: P + 2 + length byte", f"{fk}:slice-terms",
+                         f"decode_bytearray: after `{sn.text()[:50]}` the next iteration starts at {AV.show(v)}; the item at P ends at {AV.show(c.ITEM_END)}", ctx.loc(f, sn))
+            else:
+                ck.unknown(rule, f"decode_bytearray (cursor form): the cursor at the end of an iteration is {AV.show(v)}: not decided", ctx.loc(f, sn))
+        ck.require_min(rule, "ways back to the head of the item loop", n_back, 1)
+        # never the caller's buffer: nothing is changed in place (reads and fresh slices only)
+        params = set(f.pos_params)
+        mut = [p for p in params if A.mutated_in_place(p)] + ([c.D] if A.mutated_in_place(c.D) else [])
+        ck.check(rule, not mut, "the decoder never mutates the caller's buffer (the cursor form only reads and takes fresh slices)", f"{fk}:consumes-callers-buffer",
+                 f"decode_bytearray changes {mut} in place", f.loc())
+        return
+    # G1: a value is stored only after  len(D) >= P0 + 2 + length byte  was established
+    G = AV.add(c.LEN, c.ITEM_END, -1)
+    fit = AV.atom(("len", want_val))
+    gates = []
+    for n in cfg.nodes:
+        if n.kind != "test" or n.id not in c.live:
+            continue
+        td = c.test_diff(n)
+        if td is None:
+            continue
+        for truth, lab in ((True, "T"), (False, "F")):
+            op = c._outcome(td[1], truth)
+            lb = c.lower_bound(td[0], op, G)
+            if lb is not None and lb >= 0:
+                gates += ctx.edges(cfg, n, lab)
+            # length byte == len(the value slice): the slice is as long as declared
+            if op == "Eq" and td[0] in (AV.add(c.L, fit, -1), AV.add(fit, c.L, -1)):
+                gates += ctx.edges(cfg, n, lab)
+    for n, _ke, _ve in stores:
+        ctx.must_pass(rule, cfg, n, "declared length fits: len(buffer) >= P + 2 + length byte", gates, start=c.head.id,
+                      desc=f"decode_bytearray: `{n.text()[:50]}` only after the declared length was checked against the bytes available")
 
 
 def _lin(e, buf: str, lenv: str):
@@ -304,6 +539,15 @@ def _g1(ctx: Context) -> None:
         _merge_check(ctx, f, cfg, _index_idiom(ctx)[3][1])
         return
     if len(pops) != 2:
+        cur = _cursor_form(ctx)
+        if cur.ok:
+            _cursor_g1_t1(ctx, cur, "C15.G1")
+            keyd = [n.ast.targets[0].id for n, x, k in cur.reads if k == 0 and n.kind == "stmt" and type(n.ast) is ast.Assign and isinstance(n.ast.targets[0], ast.Name) and n.ast.value is x]
+            if len(keyd) == 1:
+                _merge_check(ctx, f, cfg, keyd[0])
+            else:
+                ck.unknown("C15.G1", "decode_bytearray (cursor form): the type byte is not kept in one local: merge of equal-typed neighbours not decided", f.loc())
+            return
         ck.unknown("C15.G1", f"decode_bytearray: expected two pops (type, length), found {len(pops)}", f.loc())
         return
     (kn, keyv, buf, _i1), (ln, lenv, buf2, _i2) = sorted(pops, key=lambda p: p[0].lineno)
@@ -376,6 +620,10 @@ def _t1(ctx: Context) -> None:
     if len(pops) != 2 and _g1_t1_index_idiom(ctx, "C15.T1"):
         return
     if len(pops) != 2:
+        cur = _cursor_form(ctx)
+        if cur.ok:
+            _cursor_g1_t1(ctx, cur, "C15.T1")
+            return
         ck.unknown("C15.T1", f"decode_bytearray: expected two pops (type, length), found {len(pops)}", f.loc())
         return
     (kn, keyv, buf, i1), (ln, lenv, buf2, i2) = sorted(pops, key=lambda p: p[0].lineno)
